@@ -196,8 +196,16 @@ def mon_C03(h):
     cur = _defs_at(h)
     reloaded = _reload_seen(h)
     shut = _shut_at(h)
+    prev = h.get("snap0") or EMPTY
     for k, st in enumerate(h["steps"]):
         sn = st["snap"]
+        # a waiting job of a pipeline that is still defined never just disappears (it starts, or it is reported canceled)
+        if not st.get("skip") and st["ev"]["t"] != "restart":
+            now = _jobs(sn)
+            for j in prev["jobs"]:
+                if _waiting(j) and j["id"] not in now and _pipe(h, cur[k], j["pipe"]) is not None and _pipe(h, cur[k + 1], j["pipe"]) is not None:
+                    bad.append((k, "job %d was waiting and is gone after %s (its pipeline is still defined): it neither started nor was it reported canceled" % (j["id"], st["ev"]["t"])))
+        prev = sn
         for p, ids in sn["wait"].items():
             if shut[k + 1]:
                 continue
@@ -262,6 +270,12 @@ def mon_C07(h):
                 dead.add(j["id"])
         if ev["t"] in ("runbegin",) and ev["id"] in dead:
             bad.append((k, "a task of the replaced / canceled job %d runs" % ev["id"]))
+        # "the most recently accepted job ... eventually runs": a waiting job of a defined pipeline never just disappears
+        if not st.get("skip") and ev["t"] != "restart":
+            nowj = _jobs(sn)
+            for j in prev["jobs"]:
+                if _waiting(j) and j["id"] not in nowj and _pipe(h, cur[k], j["pipe"]) is not None and _pipe(h, cur[k + 1], j["pipe"]) is not None:
+                    bad.append((k, "job %d was waiting and is gone after %s (its pipeline is still defined): it can never run" % (j["id"], ev["t"])))
         # the delay is the only wait: once it has passed and a slot is free, the oldest waiting job is started
         if not reloaded[k + 1] and not shut[k + 1]:
             jobs = _jobs(sn)
@@ -510,10 +524,35 @@ def mon_C15(h):
 def mon_C16(h):
     bad = []
     cur = _defs_at(h)
+    shut = _shut_at(h)
     snapdef = {}
+    clock, created = 0, {}
     prev = h.get("snap0") or EMPTY     # the state before the first event: jobs restored from a preloaded store are there
     for k, st in enumerate(h["steps"]):
         sn, ev = st["snap"], st["ev"]
+        if ev["t"] == "tick":
+            clock += ev.get("d", 0)
+        if ev["t"] == "schedule" and st["res"].startswith("job:"):
+            created[int(st["res"][4:])] = clock
+        # a job waits exactly as long as the definition it was accepted with says - whatever was reloaded since:
+        pj = _jobs(prev)
+        for j in sn["jobs"]:
+            was = pj.get(j["id"])
+            if j["start"] and was is not None and not was["start"] and j["id"] in created and clock < created[j["id"]] + j["delay"]:
+                bad.append((k, "job %d (accepted with start delay %d at %d) started at %d, before its own delay has passed" % (j["id"], j["delay"], created[j["id"]], clock)))
+        # ... and no longer: after an event that makes the runner look at the wait list of a pipeline (a job of it ended, a timer of it
+        # fired, a waiting job of it was canceled) the oldest waiting job without pending timer does not stay waiting beside a free slot
+        if ev["t"] in ("return", "fire", "cancel") and not shut[k + 1] and not st.get("skip"):
+            src = pj.get(ev.get("id"))
+            if src is not None and (ev["t"] != "cancel" or (st["res"] == "ok" and _waiting(src))):
+                p = src["pipe"]
+                d = _pipe(h, cur[k + 1], p)
+                w = _waiting_ids(sn, p)
+                if d is not None and w:
+                    head = _jobs(sn)[w[0]]
+                    if not head["timer"] and _count_running(sn, p) < d["conc"]:
+                        bad.append((k, "pipeline %d: after %s of job %s a slot is free and the waiting job %d has no pending start timer (its own delay %d has passed), but it was not started"
+                                    % (p, ev["t"], ev.get("id"), w[0], head["delay"])))
         if ev["t"] == "schedule" and st["res"].startswith("job:"):
             n = int(st["res"][4:])
             d = _pipe(h, cur[k], ev.get("p", 0))
@@ -563,10 +602,7 @@ def mon_C12(h):
     bad = []
     cur = _defs_at(h)
     ages = {p["id"]: p["age"] for p in (h.get("pre") or [])}
-    prev = {"jobs": [], "logs": [], "store": None}
-    if h.get("pre"):
-        # the state before the first event is not recorded; start from the first snapshot
-        prev = None
+    prev = h.get("snap0") or {"jobs": [], "logs": [], "store": None}
     for k, st in enumerate(h["steps"]):
         sn, ev = st["snap"], st["ev"]
         if st.get("skip"):
@@ -609,9 +645,12 @@ def mon_C12(h):
             for i in removed:
                 if i in sn["logs"]:
                     bad.append((k, "the logs of the removed job %d are still there" % i))
-            for i in prev["logs"]:
+            for i in prev.get("logs") or []:
                 if i in after and i not in sn["logs"]:
                     bad.append((k, "the logs of the kept job %d are gone" % i))
+            for i in sn["logs"]:
+                if i not in after:
+                    bad.append((k, "after the save the log directory of job %d is still there although the job is not reported (any more)" % i))
         prev = sn
     return bad
 
